@@ -1,10 +1,11 @@
 (* C17 — marker projections only ever weaken.
    Proved on the unsimplified structure ([only_raw]: foreign leaves replaced by the universal marker):
-   the projection mentions only the requested names and holds wherever the marker holds.  The implementation
-   additionally re-simplifies (MultiMarker.of / MarkerUnion.of, level 2); exclusion and reduction by a Python range
-   also go through the simplifier: they are judged on the implementation by the oracle. *)
+   the projection mentions only the requested names and holds wherever the marker holds; and (level 2, partial —
+   relative to the premises of Proofs/MarkerAlgProofs.v) on the projection as implemented, which re-simplifies
+   through MultiMarker.of / MarkerUnion.of.  Exclusion and reduction by a Python range are judged on the
+   implementation by the oracle. *)
 From Coq Require Import List Bool NArith String.
-From PC Require Import Base.Result Model.Generic Model.Marker Proofs.MarkerProofs.
+From PC Require Import Base.Result Model.Generic Model.Marker Model.MarkerAlg Proofs.MarkerProofs Proofs.MarkerAlgProofs.
 Import ListNotations.
 
 Theorem C17_only_weakens : forall E names m, beval E m = true -> beval E (only_raw names m) = true.
@@ -13,3 +14,8 @@ Print Assumptions C17_only_weakens.
 Theorem C17_only_names : forall names m n, In n (names_of (only_raw names m)) -> mem_str n names = true.
 Proof. exact only_raw_names. Qed.
 Print Assumptions C17_only_names.
+
+Theorem C17_only_simplified_partial : forall E, key_sound E -> key_symmetric -> merge_sound E ->
+  forall fuel st names m r, only fuel st names m = Ok r -> beval E m = true -> beval E r = true.
+Proof. exact only_weakens. Qed.
+Print Assumptions C17_only_simplified_partial.
